@@ -395,3 +395,15 @@ def bounded(K):
     ok = st == 'ok' and r['nbad'] == 0
     K.bounded('containers', ok, {'evaluations': r['n'] if st == 'ok' else 0, 'distinct_nontrivial': 2 ** (L + 1) - 2, 'bound': f'all bit strings of length 1..{L} in 8 container/textual forms',
                                  'samples': ['0110 as str / "0,1,1,0" / "0 1 1 0" / list / tuple / ndarray / bools / float array'], 'failures': r if st == 'ok' else st})
+
+
+def frame_runs(K):
+    n, m_, lo, hi = z3.Ints('n m lo hi')
+    out = []
+    out.append(('binary_sequence.__add__', lambda ex: ex.call(ex.get_method(mk_binseq(ex, 'a', n), '__add__'), [mk_binseq(ex, 'b', m_)], {}), [n >= 0, m_ >= 0], None))
+    out.append(('binary_sequence.__radd__', lambda ex: ex.call(ex.get_method(mk_binseq(ex, 'a', n), '__radd__'), [mk_binseq(ex, 'b', m_)], {}), [n >= 0, m_ >= 0], None))
+    out.append(('binary_sequence.__invert__', lambda ex: ex.call(ex.get_method(mk_binseq(ex, 'a', n), '__invert__'), [], {}), [n >= 0], None))
+    out.append(('binary_sequence.__getitem__', lambda ex: ex.subscript(mk_binseq(ex, 'a', n), SliceV(lo, hi, None)), [n >= 0], None))
+    for meth in ('__gt__', '__lt__'):
+        out.append((f'electrical_signal.{meth}', lambda ex, meth=meth: ex.call(ex.get_method(mk_esig(ex, 'x', n, noise=True), meth), [mk_esig(ex, 't', n)], {}), [n >= 1], None))
+    return out
